@@ -207,6 +207,18 @@ impl<'a> Gen<'a> {
             self.types.push(TyDecl { name: names[i].clone(), xtors });
             self.is_codata.push(codata);
         }
+        // in a fifth of the programs a later type reuses the xtor identifiers of an earlier type of
+        // the same kind at rotated positions (an xtor is identified by its type and its name)
+        if n >= 2 && self.rng.pct(20) {
+            for i in 1..n {
+                let Some(e) = (0..i).find(|e| self.is_codata[*e] == self.is_codata[i] && self.types[*e].xtors.len() >= 2) else { continue };
+                let donor: Vec<Name> = self.types[e].xtors.iter().map(|x| x.name.clone()).collect();
+                let m = self.types[i].xtors.len().min(donor.len());
+                for j in 0..m {
+                    self.types[i].xtors[j].name = donor[(j + 1) % donor.len()].clone();
+                }
+            }
+        }
     }
 
     fn random_shape(&mut self) -> (Chi, Ty) {
